@@ -685,6 +685,46 @@ func (a *ptsTo) genExternal(f *ssa.Function, ci ssa.CallInstruction, name string
 		}
 	}
 	a.callbacks = append(a.callbacks, cbSite{f, ci, a.argNodes(c)})
+	// an argument converted to an interface from a named module type (sort.Sort(byKey(s))): the library calls the methods of that
+	// static type on the value — the object behind it may have been allocated under its unnamed underlying type
+	for _, arg := range c.Args {
+		mi, ok := arg.(*ssa.MakeInterface)
+		if !ok {
+			continue
+		}
+		nt, ok := derefType(mi.X.Type()).(*types.Named)
+		if !ok || nt.Obj().Pkg() == nil {
+			continue
+		}
+		if _, isMod := pkgAlias[nt.Obj().Pkg().Path()]; !isMod {
+			continue
+		}
+		for _, T := range []types.Type{nt, types.NewPointer(nt)} {
+			ms := a.p.SSA.MethodSets.MethodSet(T)
+			for i := 0; i < ms.Len(); i++ {
+				if !callbackMethods[ms.At(i).Obj().Name()] {
+					continue
+				}
+				m := a.p.SSA.MethodValue(ms.At(i))
+				if m == nil || !a.p.InModule(m) || len(m.Params) == 0 {
+					continue
+				}
+				key := fmt.Sprintf("cbs%p>%p", in, m)
+				if a.bound[key] {
+					continue
+				}
+				a.bound[key] = true
+				a.edge(f, m)
+				a.copy(a.node(m.Params[0]), a.node(mi.X))
+				for pi, prm := range m.Params[1:] {
+					if hasPtr(prm.Type()) {
+						ob := a.newObj("fresh", prm, prm.Type(), fmt.Sprintf("library-owned argument %d of %s", pi+1, a.p.Name(m)))
+						a.addObj(a.node(prm), ob)
+					}
+				}
+			}
+		}
+	}
 	switch {
 	case pureExtPkg(name):
 		freshResults()
@@ -752,6 +792,10 @@ func (a *ptsTo) genExternal(f *ssa.Function, ci ssa.CallInstruction, name string
 		}
 	case hasPrefixAny(name, "encoding/json.Marshal", "encoding/xml.Marshal", "(*encoding/json.Encoder).Encode", "(*encoding/gob.Encoder).Encode", "(*encoding/xml.Encoder).Encode"):
 		freshResults()
+	case name == "encoding/json.HTMLEscape", name == "encoding/json.Indent", name == "encoding/json.Compact":
+		// append to the destination buffer (first argument), read the source
+		a.write(in, f, a.node(c.Args[0]), name+" appends to its destination buffer")
+	case name == "encoding/json.Valid":
 	case name == "encoding/gob.Register":
 	case hasPrefixAny(name, "fmt.Sprint", "fmt.Errorf", "fmt.Sprintf", "fmt.Sprintln"):
 		freshResults()
